@@ -85,10 +85,19 @@ pub fn build(s: &Spec) -> BoxSource {
     Spec::RawStr(t) => RawStringSource::from(t.clone()).boxed(),
     Spec::RawBuf(b) => RawBufferSource::from(b.clone()).boxed(),
     Spec::Orig { text, name } => OriginalSource::new(text.clone(), name.clone()).boxed(),
-    Spec::Sms { text, name, map } => SourceMapSource::new(WithoutOriginalOptions {
+    Spec::Sms { text, name, map, full: None } => SourceMapSource::new(WithoutOriginalOptions {
       value: text.clone(),
       name: name.clone(),
       source_map: source_map(map),
+    })
+    .boxed(),
+    Spec::Sms { text, name, map, full: Some((original, remove)) } => SourceMapSource::new(SourceMapSourceOptions {
+      value: text.clone(),
+      name: name.clone(),
+      source_map: source_map(map),
+      original_source: original.clone(),
+      inner_source_map: None,
+      remove_original_source: *remove,
     })
     .boxed(),
     Spec::SmsInner {
